@@ -101,6 +101,7 @@ def pi_vector(cfg, data=None, forests=None):
 def row_task(task):
     """Worker entry: exact row of the transition kernel from one start forest."""
     from vlib.harness import Partial
+    import phyclone.tree.utils as _tu
     from phyclone.utils.dev import clear_proposal_dist_caches
 
     cfg = task["cfg"]
@@ -115,7 +116,12 @@ def row_task(task):
     hooks = task.get("hooks")
 
     def once(rng):
+        # every replayed path starts from the same memoisation state: an order-insensitive cache hit differs from a fresh
+        # computation in the last bit, and at an exact boundary (equal weights, resampling threshold 1) that bit decides a
+        # branch - replays of one prefix must not disagree about it
         clear_proposal_dist_caches()
+        _tu.compute_log_S.cache_clear()
+        _tu._convolve_two_children.cache_clear()
         tree, _ = gen.build_tree(f, data)
         if cfg.get("relabel"):
             tree.relabel_nodes()  # clone names in pre-order (0 = first top-level clone), as the run loop hands trees on
